@@ -87,7 +87,8 @@ mod full {
 
     pub fn check(code: usize) -> Option<String> {
         // code = configuration index * 4 + dictionary setting
-        let cfgs: [(u8, u8, u8, u8); 7] = [(1, 1, 1, 1), (2, 2, 2, 2), (3, 2, 1, 3), (2, 3, 3, 1), (1, 3, 2, 2), (3, 3, 3, 3), (1, 1, 3, 2)];
+        // (the last three: sizes of zero -- boundaries no dictionary word touches then have NO feature at all, and are examples all the same)
+        let cfgs: [(u8, u8, u8, u8); 10] = [(1, 1, 1, 1), (2, 2, 2, 2), (3, 2, 1, 3), (2, 3, 3, 1), (1, 3, 2, 2), (3, 3, 3, 3), (1, 1, 3, 2), (1, 0, 1, 0), (0, 1, 0, 1), (2, 0, 0, 2)];
         let cfg = cfgs[(code / 4) % cfgs.len()];
         let (words, max_len): (Vec<&str>, u8) = match code % 4 {
             0 => (vec![], 0),
@@ -120,7 +121,7 @@ mod full {
 
 pub fn search() -> Option<String> {
     #[cfg(vaporetto_verif)]
-    for code in 0..28 {
+    for code in 0..40 {
         let arg = format!("full:{}", code);
         crate::mark(&arg);
         let r = match std::panic::catch_unwind(move || full::check(code)) {
